@@ -29,7 +29,7 @@ ASSUMPTIONS = [
     "ClockSignal/ResetSignal targets are lowered by DomainLowerer before simulation / netlist emission",
 ]
 
-MIN_INSTANCES = {"R-02i": 15, "R-02h": 6, "R-02a": 60, "R-02b": 4, "R-02c": 8, "R-02d": 12, "R-02e": 6, "R-02g": 5, "R-02f": 3}
+MIN_INSTANCES = {"R-02j": 8, "R-02i": 15, "R-02h": 6, "R-02a": 60, "R-02b": 4, "R-02c": 8, "R-02d": 12, "R-02e": 6, "R-02g": 5, "R-02f": 3}
 
 LHS_KEYS = [("Signal", None), ("Slice", None), ("Part", None), ("Concat", None), ("SwitchValue", None),
             ("Operator", "u"), ("Operator", "s")]
@@ -1234,6 +1234,25 @@ def r02f(model, ctx):
     ok = "mask & (1 << len(value)) - 1" in txt and "|=" in txt or "self.lhs[value] |= mask & (1 << len(value)) - 1" in txt
     ctx.check(ok, R, "LHSMaskCollector:Signal", "mask clipped to the signal's width and or-ed in",
               f"Signal must or-in the mask clipped to len(value): {txt}", f"{XFRM}:{lf.lineno}")
+    # Operator ("u"/"s" reinterpretation) and SwitchValue (array proxy) hand the incoming mask on unchanged: a constant mask
+    # (~0) there makes a process own bits of the signal that it does not drive
+    for kind, arg0 in (("Operator", "value.operands[0]"), ("SwitchValue", None)):
+        lf = select_leaf(lvs, _env(kind))
+        calls = [n for st in lf.body for n in ast.walk(st) if isinstance(n, ast.Call) and unparse(n.func) == "self.visit_value"]
+        local = {unparse(st_.targets[0]): unparse(st_.value) for st in lf.body for st_ in ast.walk(st)
+                 if isinstance(st_, ast.Assign) and len(st_.targets) == 1 and isinstance(st_.targets[0], ast.Name)}
+        got0 = unparse(calls[0].args[0]) if calls and calls[0].args else ""
+        got0 = local.get(got0, got0)
+        ok = len(calls) == 1 and len(calls[0].args) == 2 and unparse(calls[0].args[1]) == "mask" and \
+            (arg0 is None or got0 == arg0)
+        # the incoming mask is not modified before it is handed on
+        ok = ok and not any(isinstance(st_, (ast.Assign, ast.AugAssign)) and "mask" in
+                            {unparse(t) for t in (st_.targets if isinstance(st_, ast.Assign) else [st_.target])}
+                            for st in lf.body for st_ in ast.walk(st))
+        ctx.check(ok, R, f"LHSMaskCollector:{kind}", "recurses with the incoming mask unchanged",
+                  f"the {kind} case must pass the incoming mask on to its operand(s) unchanged; found "
+                  f"{[unparse(c) for c in calls]}: with ~0 a slice of a reinterpreted/array target claims the whole signal, and "
+                  f"the simulator process overwrites bits driven elsewhere", f"{XFRM}:{lf.lineno}")
     # the commit mask in _FragmentCompiler sign-extends iff signed and MSB driven
     fc = model.func(f"{PYRTL}::_FragmentCompiler.__call__")
     hits = [s for s in ast.walk(fc) if isinstance(s, ast.If) and
@@ -1315,7 +1334,48 @@ def r02i(model, ctx):
     with its reference semantics (sa/refs/c02_dsl.py) by path summary"""
     from .reflib import run_ref_file
     run_ref_file(model, ctx, "R-02i", "c02_dsl")
+    run_ref_file(model, ctx, "R-02i", "c01_ast", only=lambda r: "FSM" in r)
+    run_ref_file(model, ctx, "R-02i", "c01_xfrm", only=lambda r: "Statement" in r)
 
 
-RULES = [("R-02i", r02i), ("R-02h", r02h), ("R-02a", r02a), ("R-02b", r02b), ("R-02c", r02c), ("R-02d", r02d), ("R-02e", r02e), ("R-02g", r02g),
+
+def r02j(model, ctx):
+    """which value a sub-expression of an assignment target is read from: selectors that are rvalues inside an lvalue (the
+    offset of a part select, the index of an array) are read from the CURRENT state (`rrhs`); the data being updated — the
+    operand of the select, the chosen array element — is read with the compiler's own mode (the in-progress `next_*` in the
+    read-modify-write half of a partial update).  Mixing them up loses earlier assignments to the other bits."""
+    R = "R-02j"
+    import re
+    SELECTORS = {"value.offset", "value.test"}
+    n = 0
+    for cls in ("_RHSValueCompiler", "_LHSValueCompiler"):
+        c = model.cls(f"{PYRTL}::{cls}")
+        for name, fn in model.class_methods(c).items():
+            if not name.startswith("on_"):
+                continue
+            for call in ast.walk(fn):
+                if not isinstance(call, ast.Call) or not call.args:
+                    continue
+                f = unparse(call.func)
+                arg = unparse(call.args[0])
+                via_rrhs = re.fullmatch(r"self\.rrhs(\.(sign|mask))?", f) is not None
+                via_self = re.fullmatch(r"self(\.(sign|mask|lrhs|lrhs\.sign|lrhs\.mask))?", f) is not None
+                if not (via_rrhs or via_self) or not (arg.startswith("value.") or arg in ("elem", "part", "arg", "lhs", "rhs")):
+                    continue
+                if arg in SELECTORS:
+                    n += 1
+                    ctx.check(via_rrhs, R, f"{cls}.{name}:{arg}", "selector read from the current state (rrhs)",
+                              f"{cls}.{name} compiles the selector {arg} with `{f}`; selectors inside an assignment target must be "
+                              f"read through self.rrhs (the committed value)", f"{PYRTL}:{call.lineno}")
+                elif cls == "_RHSValueCompiler":
+                    n += 1
+                    ctx.check(not via_rrhs, R, f"{cls}.{name}:{arg}", "data operand read in the compiler's own mode",
+                              f"{cls}.{name} compiles the data operand {arg} with `{f}`: in the next-mode instance used for partial "
+                              f"updates this reads the committed value instead of the in-progress one, so earlier assignments to "
+                              f"the other bits of the target are lost", f"{PYRTL}:{call.lineno}")
+    need(n >= 8, f"only {n} operand compilations found in the value compilers")
+
+
+
+RULES = [("R-02j", r02j), ("R-02i", r02i), ("R-02h", r02h), ("R-02a", r02a), ("R-02b", r02b), ("R-02c", r02c), ("R-02d", r02d), ("R-02e", r02e), ("R-02g", r02g),
          ("R-02f", r02f)]
